@@ -26,7 +26,7 @@ let string_of_n (x : n) : string =
 let byte_tab = Array.init 256 n_of_int
 let nb i = byte_tab.(i land 255)
 
-let hex_of_ints (l : int list) = String.concat "" (List.map (Printf.sprintf "%02x") l)
+let hex_of_ints (l : int list) = let b = Buffer.create 64 in List.iter (fun x -> Buffer.add_string b (Printf.sprintf "%02x" x)) l; Buffer.contents b
 let ints_of_hex s = List.init (String.length s / 2) (fun i -> int_of_string ("0x" ^ String.sub s (2 * i) 2))
 
 (* rle: "-" = empty; comma separated tokens "hh*count" or a plain hex string *)
@@ -51,7 +51,7 @@ let gen_block seed i = List.init 512 (fun j -> gen_byte seed i j)
 type unit_line = string
 let line_of_event (e : event) : string * bool (* is 1-byte transfer *) * bool (* is delay *) =
   let Ev (c, r) = e in
-  let h l = hex_of_ints (List.map int_of_n l) in
+  let h l = hex_of_ints (List.rev (List.rev_map int_of_n l)) in
   match c, r with
   | DelayUs us, _ -> (Printf.sprintf "D %d" (int_of_n us), false, true)
   | Write o, Bytes m -> (Printf.sprintf "W %s %s" (h o) (h m), false, false)
@@ -64,7 +64,7 @@ let line_of_event (e : event) : string * bool (* is 1-byte transfer *) * bool (*
 (* events oldest first -> units: a 1-byte T followed by D becomes one "P" unit; equal
    consecutive units are merged with a repeat count *)
 let print_trace (evs : event list) =
-  let lines = Array.of_list (List.map line_of_event evs) in
+  let lines = Array.map line_of_event (Array.of_list evs) in
   let n = Array.length lines in
   let units = ref [] in
   let i = ref 0 in
@@ -186,7 +186,7 @@ let replay_card kind csd memseed tseed m lines =
 
 let run_scenario id crc retries miso pad fails calls =
   let o = { use_crc = (crc = "1"); acquire_retries = n_of_int (int_of_string retries) } in
-  let d0 = { o_miso = List.map nb (ints_of_rle miso); o_pad = nb (int_of_string ("0x" ^ pad));
+  let d0 = { o_miso = List.rev (List.rev_map nb (ints_of_rle miso)); o_pad = nb (int_of_string ("0x" ^ pad));
              o_calln = N0; o_fails = parse_fails fails } in
   let s = ref (init_st d0) in
   Printf.printf "B %s\n" id;
@@ -195,6 +195,7 @@ let run_scenario id crc retries miso pad fails calls =
       let c = parse_call cs in
       let (r, s') = api oracle_spi o c !s in
       print_trace (List.rev s'.tr);
+      Printf.printf "O cost %d %s %s\n" k (string_of_int (List.fold_left (fun acc e -> let Ev (c, _) = e in acc + int_of_n (call_bytes c)) 0 s'.tr)) (string_of_n (bound o c));
       s := { dev = s'.dev; tr = []; ctype = s'.ctype };
       (match r with
        | Ok v -> Printf.printf "R %d ok %s\n" k (string_of_value v)
